@@ -36,7 +36,8 @@ STUB = ['user link functions (sim/linkfuncs.py)', 'uuid and identity-hash stream
 ASSUMPTIONS = ['world-coordinate input values are read from glue (C15 is an input-space property); everything computed from them is modelled',
                'views are slice tuples / integers (C04 covers the view domain)', 'sampling, not proof']
 PROBES = ['binary_tree', 'user_function', 'two_input_function', 'parsed_text', 'derived_of_derived', 'pixel_input', 'world_input', 'cascade_removed_ge_2',
-          'compare_after_update', 'compare_after_reorder', 'compare_after_update_id', 'view_compare', 'in_collection', 'nan_propagated']
+          'compare_after_update', 'compare_after_reorder', 'compare_after_update_id', 'view_compare', 'in_collection', 'nan_propagated',
+          'link_object_reused']
 
 WEIGHTS = {'add_comp': 2, 'add_binary': 5, 'add_fn': 3, 'add_parsed': 3, 'remove': 2, 'update_id': 1, 'upd': 3, 'reorder': 1.5, 'compare': 5}
 OPS = {'+': operator.add, '-': operator.sub, '*': operator.mul, '/': operator.truediv, '**': operator.pow}
@@ -47,6 +48,9 @@ def gen_tree(rng, depth):
     if depth <= 0 or rng.chance(0.3):
         if rng.chance(0.3):
             return ['const', rng.pick([0, 1, 2, 3, -1, 0.5, 2.5])]
+        if rng.chance(0.15):
+            # the link *object* that defines an earlier derived attribute, used again as an operand (s = a + b; d['s'] = s; t = s * c)
+            return ['lnk', rng.randrange(12)]
         return ['cid', rng.randrange(12)]
     op = rng.pick(['+', '-', '*', '/', '**'])
     l = gen_tree(rng, depth - 1)
@@ -98,6 +102,7 @@ class Model(object):
         self.trees = {}     # id(cid) -> tree with ['ref', cid] leaves
         self.kinds = {}     # id(cid) -> definition kind
         self.age = {}
+        self.links = {}     # id(cid) -> the link object that defines it
         self.orphan = set()
         self.keep = []      # strong references: the tables above are keyed by id(), which must never be reused
 
@@ -186,18 +191,26 @@ def _execute(case, res):
     def candidates():
         return [c for c in d.components if id(c) not in m.orphan]
 
-    def bind(t):
+    def bind(t, parsed=False):
         """Resolve symbolic leaves against the current component list; returns (tree with refs, glue expression, text, refs)."""
         k = t[0]
         if k == 'const':
             return ['const', t[1]], t[1], repr(t[1]), {}
+        if k == 'lnk':
+            cs = [c for c in d.derived_components if id(c) in m.links and id(c) in m.trees and id(c) not in m.orphan]
+            if parsed or not cs:
+                k = 'cid'
+            else:
+                c = cs[t[1] % len(cs)]
+                res.probe('link_object_reused')
+                return m.trees[id(c)], m.links[id(c)], None, {}
         if k == 'cid':
             cs = [c for c in candidates() if d.get_kind(c) == 'numerical']
             c = cs[t[1] % len(cs)]
             tag = 'r%d' % (t[1] % len(cs))
             return ['ref', c], c, '{%s}' % tag, {tag: c}
-        lt, le, ls, lr = bind(t[1])
-        rt, re_, rs, rr = bind(t[2])
+        lt, le, ls, lr = bind(t[1], parsed)
+        rt, re_, rs, rr = bind(t[2], parsed)
         lr.update(rr)
         return [k, lt, rt], OPS[k](le, re_), '(%s %s %s)' % (ls, k, rs), lr
 
@@ -223,7 +236,7 @@ def _execute(case, res):
             cid = d.add_component(arr, 's%d' % nname[0])
             m.raw[id(cid)] = arr
         elif k in ('add_binary', 'add_parsed'):
-            tree, expr, text, refs = bind(op[1])
+            tree, expr, text, refs = bind(op[1], k == 'add_parsed')
             if tree[0] in ('const', 'ref'):
                 continue
             nname[0] += 1
@@ -231,6 +244,7 @@ def _execute(case, res):
             if k == 'add_binary':
                 d.add_component_link(expr, label)
                 cid = d.id[label]
+                m.links[id(cid)] = expr
                 res.probe('binary_tree')
             else:
                 cid = ComponentID(label, parent=d)
@@ -254,6 +268,7 @@ def _execute(case, res):
                 tree = ['fn', op[1], [['ref', a], ['ref', b]]]
                 res.probe('two_input_function')
             m.trees[id(cid)] = tree
+            m.links[id(cid)] = d.get_component(cid).link
             m.kinds[id(cid)] = 'add_fn'
             m.age[id(cid)] = 0
             note_inputs(d, m, tree, res)
